@@ -161,8 +161,22 @@ def run(R):
             g = f.cfg
             t_ = [x for x in g.nodes if x.kind == 'test' and norm(x.ast).startswith('isinstance(') and 'bytes' in norm(x.ast)]
             d = [n for n, k in cfg_nodes_with_call(f, lambda k: callee_last(k) == '_decode')]
-            ok = len(t_) == 1 and len(d) == 1 and d[0] in guard_region(g, t_[0], 'true')
-            c.check(ok, f, t_[0].ast if t_ else None, '%s(): bytes (and only bytes) go through the decoder' % name, kind='path', tag='bytes-decoded:' + name)
+            ok = len(t_) == 1 and len(d) >= 1 and all(x in guard_region(g, t_[0], 'true') for x in d)
+            if ok:
+                # EVERY path through the bytes branch goes through the persistent decoder
+                region = guard_region(g, t_[0], 'true')
+                outside = [x for x in g.nodes if x not in region and any(p in region for p, l in x.pred if l != 'exc')]
+                starts = [s2 for s2, l2 in t_[0].succ if l2 == 'true']
+                ok = all(g.path(s2, set(outside), avoid=set(d), skip_labels=('exc',)) is None for s2 in starts)
+            c.check(ok, f, t_[0].ast if t_ else None, '%s(): bytes (and only bytes) go through the persistent decoder, on every path' % name, kind='path', tag='bytes-decoded:' + name)
+        # no per-chunk decoding anywhere in the terminal classes
+        for fn in repo.package_funcs():
+            if fn.module.name not in ('ANSI', 'screen') or fn.cls is None:
+                continue
+            for k in calls_in(fn.node):
+                if callee_last(k) == 'decode' and isinstance(k.func, ast.Attribute) and norm(k.func.value) != 'self.decoder':
+                    c.bad(fn, k, 'bytes are decoded per chunk with %s instead of the persistent incremental decoder: a multi-byte character cut by a '
+                          'chunk boundary is reordered / corrupted, and the result depends on where the input was cut' % norm(k)[:40], kind='ast', tag='chunk-decode:' + fn.qual)
     with R.clause('D5', 'SHAPE', floor=10, desc='grid stays rows x cols: single-cell stores at clamped indices, length-preserving scroll moves, two-sided clamps') as c:
         check_shape(c, repo)
     with R.clause('D6', 'PAIR', floor=6, desc='every writer of the cursor fields ends in cursor_constrain()') as c:
@@ -278,37 +292,136 @@ def check_cell_store(c, f, st, tg):
 
 
 def check_row_move(c, f, st, tg):
-    lo, hi, step = slice_bounds(tg)
     v = st.value
-    src_ = v
-    copied = False
-    if isinstance(v, ast.Call) and dotted(v.func) in ('copy.deepcopy', 'deepcopy', 'copy.copy') and len(v.args) == 1:
-        src_ = v.args[0]
-        copied = dotted(v.func) in ('copy.deepcopy', 'deepcopy')
-    elif isinstance(v, ast.ListComp):
-        copied = True
-    c.check(copied, f, st, 'the moved rows are deep-copied (two grid rows must never be the same list object)', witness=norm(v)[:60], kind='ast', tag='move-copied:' + f.name)
-    sb = slice_bounds(src_) if isinstance(src_, ast.Subscript) else None
-    c.need(sb is not None and norm(src_.value) == 'self.w', '%s: source of the row move is not a slice of the grid: %s' % (f.qual, norm(src_)))
-    tl, th = lin(lo, f), lin(hi, f)
-    sl, sh = lin(sb[0], f), lin(sb[1], f)
-    c.need(None not in (tl, th, sl, sh), 'row move bounds not linear')
-    same_len = (th - tl) == (sh - sl)
-    shift = sl - tl
-    want = 1 if f.name == 'scroll_up' else -1
-    c.check(same_len and shift.is_const() and shift.const == want, f, st,
-            'source and target slices have the same length and differ by exactly one row (%s)' % ('rows move up' if want == 1 else 'rows move down'),
-            witness='target [%r : %r], source [%r : %r]' % (tl, th, sl, sh), kind='alg', tag='move-shift:' + f.name)
-    # the region bounds: s = scroll_row_start - 1, e = scroll_row_end - 1 ; slices stay inside [0, rows] given both fields in [1, rows]
-    S = Lin(-1, {'self.scroll_row_start': 1})
-    E = Lin(-1, {'self.scroll_row_end': 1})
-    if f.name == 'scroll_up':
-        ok = tl == S and th == E and sl == S + Lin(1) and sh == E + Lin(1)
-    else:
-        ok = tl == S + Lin(1) and th == E + Lin(1) and sl == S and sh == E
-    c.check(ok, f, st, 'the move covers exactly the scroll region rows start..end (0-based start-1 .. end-1): with both fields in [1, rows] no '
-            'slice bound leaves [0, rows], so the slice assignment cannot change the number of rows',
-            witness='target [%r : %r], source [%r : %r]' % (tl, th, sl, sh), kind='alg', tag='move-region:' + f.name)
+    up = f.name == 'scroll_up'
+    probs = row_move_semantics(f, tg, v, up)
+    if probs is None:
+        raise AnalysisError('%s: row move %s not understood' % (f.qual, norm(st)))
+    kinds = dict(probs)
+    c.check('height' not in kinds, f, st, 'the slice assignment replaces exactly as many rows as it removes, for every grid height and every scroll '
+            'region the clamps allow (abstract evaluation over heights 1,2,3,5 x all start/end)', witness=kinds.get('height'), kind='alg', tag='move-count:' + f.name)
+    c.check('alias' not in kinds, f, st, 'no two grid rows are the same list object afterwards (moved rows are copied or moved, never shared)',
+            witness=kinds.get('alias'), kind='alg', tag='move-copied:' + f.name)
+    c.check('content' not in kinds, f, st, 'rows inside the scroll region move %s by exactly one line, rows outside keep their content' % ('up' if up else 'down'),
+            witness=kinds.get('content'), kind='alg', tag='move-shift:' + f.name)
+
+
+class RowTok(object):
+    """abstract grid row: which old row's content it carries and whether it is a fresh list object"""
+    __slots__ = ('content', 'obj')
+
+    def __init__(self, content, obj):
+        self.content, self.obj = content, obj
+
+
+def _rows_expr(e, f, env, grid):
+    """abstract list of rows denoted by a list-valued expression over the grid"""
+    if isinstance(e, ast.Call) and dotted(e.func) in ('copy.deepcopy', 'deepcopy') and len(e.args) == 1:
+        inner = _rows_expr(e.args[0], f, env, grid)
+        return None if inner is None else [RowTok(t.content, object()) for t in inner]
+    if isinstance(e, ast.Call) and dotted(e.func) in ('copy.copy', 'list') and len(e.args) == 1:
+        return _rows_expr(e.args[0], f, env, grid)       # shallow: same row objects
+    if isinstance(e, ast.BinOp) and isinstance(e.op, ast.Add):
+        a, b = _rows_expr(e.left, f, env, grid), _rows_expr(e.right, f, env, grid)
+        return None if a is None or b is None else a + b
+    if isinstance(e, ast.List):
+        out = []
+        for x in e.elts:
+            r = _one_row(x, f, env, grid)
+            if r is None:
+                return None
+            out.append(r)
+        return out
+    if isinstance(e, ast.ListComp) and len(e.generators) == 1 and not e.generators[0].ifs:
+        inner = _rows_expr(e.generators[0].iter, f, env, grid)
+        if inner is None:
+            return None
+        elt = e.elt
+        tv = e.generators[0].target.id if isinstance(e.generators[0].target, ast.Name) else None
+        fresh = isinstance(elt, ast.Call) and dotted(elt.func) in ('list', 'copy.copy', 'copy.deepcopy') or \
+            (isinstance(elt, ast.Subscript) and isinstance(elt.slice, ast.Slice) and elt.slice.lower is None and elt.slice.upper is None)
+        return [RowTok(t.content, object() if fresh else t.obj) for t in inner]
+    if isinstance(e, ast.Subscript) and norm(e.value) == 'self.w' and isinstance(e.slice, ast.Slice):
+        lo = _int_expr(e.slice.lower, f, env) if e.slice.lower is not None else 0
+        hi = _int_expr(e.slice.upper, f, env) if e.slice.upper is not None else env['rows']
+        if lo is None or hi is None:
+            return None
+        return grid[slice(lo, hi)]
+    return None
+
+
+def _one_row(x, f, env, grid):
+    if isinstance(x, ast.Call) and dotted(x.func) in ('list', 'copy.copy', 'copy.deepcopy') and len(x.args) == 1:
+        r = _one_row(x.args[0], f, env, grid)
+        return None if r is None else RowTok(r.content, object())
+    if isinstance(x, ast.Subscript) and norm(x.value) == 'self.w' and not isinstance(x.slice, ast.Slice):
+        i = _int_expr(x.slice, f, env)
+        if i is None or not (-env['rows'] <= i < env['rows']):
+            return None
+        return grid[i]
+    if isinstance(x, ast.BinOp) and isinstance(x.op, ast.Mult):
+        return RowTok('blank', object())
+    return None
+
+
+def _int_expr(e, f, env):
+    L = lin(e, f)
+    if L is None:
+        return None
+    v = L.const
+    for a, k in L.terms.items():
+        if a == 'self.scroll_row_start':
+            v += k * env['start']
+        elif a == 'self.scroll_row_end':
+            v += k * env['end']
+        elif a == 'self.rows':
+            v += k * env['rows']
+        else:
+            return None
+    return v
+
+
+def row_move_semantics(f, tg, value, up):
+    """Abstractly perform `self.w[lo:hi] = value` for every grid height / scroll region in a small box.
+    None = not understood; else list of problems (kind, text)."""
+    probs = {}
+    for rows in (1, 2, 3, 5):
+        for start in range(1, rows + 1):
+            for end in range(1, rows + 1):
+                env = {'rows': rows, 'start': start, 'end': end}
+                grid = [RowTok(i, ('old', i)) for i in range(rows)]
+                lo = _int_expr(tg.slice.lower, f, env) if tg.slice.lower is not None else 0
+                hi = _int_expr(tg.slice.upper, f, env) if tg.slice.upper is not None else rows
+                val = _rows_expr(value, f, env, grid)
+                if lo is None or hi is None or val is None:
+                    return None
+                new = list(grid)
+                new[slice(lo, hi)] = val
+                where = 'with %d rows and scroll region %d..%d' % (rows, start, end)
+                if len(new) != rows:
+                    probs.setdefault('height', '%s the assignment turns the grid into %d rows%s' % (
+                        where, len(new), ' (top below bottom is allowed by the clamps)' if start > end else ''))
+                    continue
+                objs = [id(t.obj) if not isinstance(t.obj, tuple) else t.obj for t in new]
+                if len(set(objs)) != len(objs):
+                    probs.setdefault('alias', '%s two grid rows become the same list object (writing one cell then changes two rows)' % where)
+                s_, e_ = start - 1, end - 1
+                want = list(range(rows))
+                if start <= end:
+                    if up:
+                        for i in range(s_, e_):
+                            want[i] = i + 1
+                    else:
+                        for i in range(s_ + 1, e_ + 1):
+                            want[i] = i - 1
+                got = [t.content for t in new]
+                for i in range(rows):
+                    free = (i == e_ if up else i == s_) and start <= end      # the vacated line: blanked by the caller
+                    if got[i] != want[i] and not free:
+                        probs.setdefault('content', '%s row %d ends up with the content of old row %s, expected old row %s (rows inside the region '
+                                         'move %s by one, everything else stays)' % (where, i + 1, got[i] if got[i] == 'blank' else got[i] + 1, want[i] + 1, 'up' if up else 'down'))
+                        break
+    return sorted(probs.items())
 
 
 def check_cursor_pair(c, repo):
@@ -399,6 +512,8 @@ MUTANTS = [
     ('emit-prints', 'ANSI', "    screen = fsm.memory[0]\n    screen.write_ch(fsm.input_symbol)", "    screen = fsm.memory[0]\n    print(fsm.input_symbol)\n    screen.write_ch(fsm.input_symbol)", 'D3'),
     ('write-remembers', 'ANSI', "        if isinstance(s, bytes):\n            s = self._decode(s)\n        for c in s:\n            self.process(c)", "        if isinstance(s, bytes):\n            s = self._decode(s)\n        self.last_chunk = s\n        for c in s:\n            self.process(c)", 'D4'),
     ('decode-final', 'screen', "            return self.decoder.decode(s)", "            return self.decoder.decode(s, final=True)", 'D4'),
+    ('write-ascii-bypass', 'ANSI', "        if isinstance(s, bytes):\n            s = self._decode(s)\n        for c in s:", "        if isinstance(s, bytes):\n            if s.isascii():\n                s = s.decode('ascii')\n            else:\n                s = self._decode(s)\n        for c in s:", 'D4'),
+    ('scroll-up-concat', 'screen', "        self.w[s:e] = copy.deepcopy(self.w[s+1:e+1])", "        self.w[s:e+1] = copy.deepcopy(self.w[s+1:e+1]) + [list(self.w[e])]", 'D5'),
     ('constrain-one-sided', 'screen', "        self.scroll_row_end = constrain (self.scroll_row_end, 1, self.rows)", "        if self.scroll_row_end > self.rows:\n            self.scroll_row_end = self.rows", 'D5'),
     ('scroll-up-off', 'screen', "        self.w[s:e] = copy.deepcopy(self.w[s+1:e+1])", "        self.w[s:e] = copy.deepcopy(self.w[s+1:e+2])", 'D5'),
     ('scroll-down-nocopy', 'screen', "        self.w[s+1:e+1] = copy.deepcopy(self.w[s:e])", "        self.w[s+1:e+1] = self.w[s:e]", 'D5'),
